@@ -75,6 +75,9 @@ func (f *rawFileWriter) Open(path string) error {
 	if err == nil {
 		f.buf = make([]byte, encodeBufSize)
 		f.w = bufio.NewWriterSize(f.fd, DiskBlockSize)
+		if w := vwrapWriter(path, f.fd); w != nil {
+			f.w = bufio.NewWriterSize(w, DiskBlockSize)
+		}
 	}
 	return err
 }
@@ -97,6 +100,10 @@ func (f *rawFileWriter) Close() error {
 	}
 
 	f.w.Flush()
+	if err := vfs("close", f.fd.Name()); err != nil {
+		f.fd.Close()
+		return err
+	}
 	return f.fd.Close()
 }
 
